@@ -282,3 +282,65 @@ func TestVerifC14Inputs(t *testing.T) {
 	}
 	w.Res.Outcomes = int64(len(outcomes))
 }
+
+// TestVerifC19Balloons: which balloon type a created container lands in, for every order of the configured types.
+func TestVerifC19Balloons(t *testing.T) {
+	w := mc.NewWorker(t, "C19")
+	defer w.Finish()
+	w.Replayer = nil
+	cases := c19BalloonCases(w.Thorough())
+	replay := ""
+	if w.ReplayV != nil {
+		replay = w.ReplayV.Scenario
+	}
+	outcomes := map[string]bool{}
+	for i, cs := range cases {
+		if replay != "" {
+			if cs.s.name != replay {
+				continue
+			}
+		} else if !w.Mine(i) {
+			continue
+		}
+		var x *exec
+		var err error
+		pan, msg, where := mc.Guard(func() { x, err = newExec(cs.s, scratchDir()) })
+		if pan || err != nil {
+			w.Report(mc.Violation{Property: "C19", Oracle: "setup", Signature: "setup-fails", Scenario: cs.s.name, Detail: fmt.Sprint(msg, where, err)})
+			continue
+		}
+		x.evIndex = -1
+		x.step("run:p0")
+		rp := x.step("create:c0")
+		w.Res.Evaluations++
+		if rp.panic != "" {
+			w.Report(mc.Violation{Property: "C14", Oracle: "panic", Signature: "panic@" + rp.where + ":create", Scenario: cs.s.name, Trace: []string{"run:p0", "create:c0"}, Detail: rp.panic})
+			continue
+		}
+		post := x.snapshot()
+		got := x.balloonDefOf(x.w.ctrs[0], post)
+		if rp.err != nil {
+			got = "<error>"
+		}
+		// the public observable: the zone the container sub-zone hangs under
+		zoneDef := ""
+		for _, z := range post.Zones {
+			if z.Type == "allocation for container" && strings.HasSuffix(z.Name, "/"+x.w.ctrs[0].spec.name) {
+				zoneDef = strings.Split(z.Parent, "[")[0]
+			}
+		}
+		outcomes[got] = true
+		w.Res.Nontrivial++
+		if got != cs.want {
+			w.Report(mc.Violation{Property: "C19", Oracle: "balloon-type-selection", Signature: "balloon-type-selection:" + cs.kind, Scenario: cs.s.name, Trace: []string{"run:p0", "create:c0"},
+				Detail: fmt.Sprintf("container kind %q with types in order %v lands in %q, expected %q (error: %v)", cs.kind, cs.order, got, cs.want, rp.err)})
+		} else if rp.err == nil && zoneDef != got {
+			w.Report(mc.Violation{Property: "C19", Oracle: "zone-differs-from-membership", Signature: "zone-differs-from-membership", Scenario: cs.s.name, Trace: []string{"run:p0", "create:c0"},
+				Detail: fmt.Sprintf("container is a member of a %q balloon but its topology sub-zone hangs under %q", got, zoneDef)})
+		}
+		if i%17 == 0 {
+			w.Sample(map[string]any{"types": cs.order, "container": cs.kind, "balloon_type": got})
+		}
+	}
+	w.Res.Outcomes = int64(len(outcomes))
+}
